@@ -54,9 +54,19 @@ fn get_block_stack_table_removal_multiplicand<E: FieldElement<BaseField = Felt>>
     } else {
         main_trace.addr(i + 1)
     };
-    let is_loop = main_trace.is_loop_flag(i);
+    // in the RESPAN row the decoder hasher columns hold operation groups of the next batch (not
+    // the block flags); the row being removed is the row of a span block, which is never a loop,
+    // and for which no execution context info was saved
+    let (is_loop, is_call_or_syscall) = if is_respan {
+        (ZERO, false)
+    } else {
+        (
+            main_trace.is_loop_flag(i),
+            main_trace.is_call_flag(i) == ONE || main_trace.is_syscall_flag(i) == ONE,
+        )
+    };
 
-    let elements = if main_trace.is_call_flag(i) == ONE || main_trace.is_syscall_flag(i) == ONE {
+    let elements = if is_call_or_syscall {
         let parent_ctx = main_trace.ctx(i + 1);
         let parent_fmp = main_trace.fmp(i + 1);
         let parent_stack_depth = main_trace.stack_depth(i + 1);
